@@ -1755,3 +1755,280 @@ impl World {
         XHopOut { line, viols, tags }
     }
 }
+
+// ================================================================================================
+// C11 / C06 / C04 / C15: reward and protocol-fee instructions through the entrypoint
+//   H xrew <kind emis|crew|cproto> <ver 1|2> <idx> <id> <authMode> <value> <feeA: bps max fut> <feeB: bps max fut>
+// emis   = set_reward_emissions(idx, value)      (signed by the pool's reward authority)
+// crew   = collect_reward / collect_reward_v2(idx) for position id (fee A = the reward mint's transfer fee)
+// cproto = collect_protocol_fees / _v2           (signed by the config's collect-protocol-fees authority)
+// authMode: 0 the right key signs; 1 a stranger signs; 2 the right key does not sign.
+// Read-only on the history.  Only initialized rewards are addressed (the vault of an uninitialized reward
+// is the all-zero key, which no token account can have).
+// ================================================================================================
+impl World {
+    pub fn x_rew(&self, t: &[&str]) -> XHopOut {
+        use anchor_lang::ToAccountMetas;
+        let mut viols = vec![];
+        let mut tags: Vec<&'static str> = vec![];
+        let kind = t[2];
+        let ver: u8 = t[3].parse().unwrap();
+        let idx: usize = t[4].parse().unwrap();
+        let id: u32 = t[5].parse().unwrap();
+        let auth_mode: u8 = t[6].parse().unwrap();
+        let value: u128 = t[7].parse().unwrap();
+        let v2 = ver == 2;
+        let (fee_a, fee_b) = if v2 { (parse_fee(t[8], t[9], t[10]), parse_fee(t[11], t[12], t[13])) } else { (None, None) };
+        let f = |c: Option<FeeCfg>| c.map(|c| (c.bps as u64, c.max_fee)).unwrap_or((0, 0));
+        let ((ba, ma), (bb, mb)) = (f(fee_a), f(fee_b));
+        let wp0 = self.wp();
+        if idx >= 3 || (kind != "cproto" && !wp0.reward_infos[idx].initialized()) {
+            return XHopOut { line: "err RewardNotInitialized".to_string(), viols, tags };
+        }
+        let base = crate::hist_oracle::clone_world(self);
+        let funds = u64::MAX / 4;
+        // pool-side fixture; for cproto the pool mints carry the fees, for crew the reward mint does
+        let (pfa, pfb, t22a, t22b) = if kind == "cproto" { (fee_a, fee_b, v2 && t[8] != "65535", v2 && t[11] != "65535") } else { (None, None, false, false) };
+        let mut fx = Fx::from_world(&base, pfa, pfb, t22a, t22b, funds);
+        let reward_auth = k(0x71, 1);
+        let cpf_auth = k(0x71, 2);
+        let stranger = k(0x63, 9);
+        let cap = u64::MAX / 4;
+        // rewards: mint, vault, the owner's account; reward authority in reward_infos[0].extension
+        let mut wp = fx.wp();
+        wp.reward_infos[0].extension = reward_auth.to_bytes();
+        let rmint = |i: usize| k(0x33, i as u8);
+        let rvault = |i: usize| k(0x43, i as u8);
+        let mut vault_amt = [0u64; 3];
+        for i in 0..3 {
+            if wp0.reward_infos[i].initialized() {
+                let fee_i = if kind == "crew" && i == idx { fee_a } else { None };
+                let m22 = fee_i.is_some() || (kind == "crew" && i == idx && v2 && t[8] != "65535");
+                let mc = crate::fixture::MintCfg { key: rmint(i), token2022: m22, fee: fee_i, decimals: 6 };
+                wp.reward_infos[i].mint = rmint(i);
+                wp.reward_infos[i].vault = rvault(i);
+                vault_amt[i] = self.reward_vaults[i].min(cap as u128) as u64;
+                fx.bank.set(mc.key, mc.program(), 1_000_000, crate::fixture::mint_data(mc.is22(), 6, fee_i, fx.bank.epoch));
+                fx.bank.set(rvault(i), mc.program(), 2_000_000, crate::fixture::token_account_data(mc.is22(), &mc.key, &fx.pool, vault_amt[i], fee_i.is_some()));
+                fx.bank.set(trader_account(&mc.key), mc.program(), 2_000_000, crate::fixture::token_account_data(mc.is22(), &mc.key, &fx.trader, 0, fee_i.is_some()));
+            }
+        }
+        {
+            let mut d = vec![];
+            wp.try_serialize(&mut d).unwrap();
+            let a = fx.bank.get(&fx.pool);
+            fx.bank.set(fx.pool, a.owner, a.lamports, d);
+        }
+        // config with the collect-protocol-fees authority
+        {
+            let cfg = ::whirlpool::state::WhirlpoolsConfig { fee_authority: k(0x71, 3), collect_protocol_fees_authority: cpf_auth, reward_emissions_super_authority: k(0x71, 4), default_protocol_fee_rate: 300, feature_flags: 0 };
+            let mut d = vec![];
+            cfg.try_serialize(&mut d).unwrap();
+            d.resize(::whirlpool::state::WhirlpoolsConfig::LEN, 0);
+            fx.bank.set(wp.whirlpools_config, ::whirlpool::ID, 5_000_000, d);
+        }
+        for kk in [reward_auth, cpf_auth, stranger] {
+            fx.bank.set(kk, crate::svm::system_id(), 1_000_000, vec![]);
+        }
+        // position accounts (crew)
+        let pmint = k(0x61, id as u8);
+        let position = Pubkey::find_program_address(&[b"position", pmint.as_ref()], &::whirlpool::ID).0;
+        let ptoken = k(0x62, id as u8);
+        let pos0 = self.pos(id);
+        if kind == "crew" {
+            let p = match &pos0 {
+                Some(p) => p,
+                None => return XHopOut { line: "err NoSuchPosition".to_string(), viols, tags },
+            };
+            let _ = p;
+            let mut pdata = base.positions[&id].clone();
+            pdata[8..40].copy_from_slice(fx.pool.as_ref());
+            pdata[40..72].copy_from_slice(pmint.as_ref());
+            fx.bank.set(position, ::whirlpool::ID, min_balance(pdata.len()) + 2 * TICK_RENT, pdata);
+            fx.bank.set(pmint, anchor_spl::token::ID, 1_000_000, crate::fixture::mint_data(false, 0, None, 0));
+            fx.bank.set(ptoken, anchor_spl::token::ID, 2_000_000, crate::fixture::token_account_data(false, &pmint, &fx.trader, 1, false));
+        }
+        let bank0 = fx.bank.clone();
+        let bal = |b: &Bank, key: &Pubkey| token_amount(&b.data(key));
+        // ---- instruction
+        let right_key = match kind {
+            "emis" => reward_auth,
+            "cproto" => cpf_auth,
+            _ => fx.trader,
+        };
+        let signer_key = if auth_mode == 1 { stranger } else { right_key };
+        let (mut metas, data): (Vec<Meta>, Vec<u8>) = match (kind, v2) {
+            ("emis", _) => {
+                let acc = ::whirlpool::accounts::SetRewardEmissions { whirlpool: fx.pool, reward_authority: signer_key, reward_vault: rvault(idx) };
+                (acc.to_account_metas(None).iter().map(Meta::from).collect(), ::whirlpool::instruction::SetRewardEmissions { reward_index: idx as u8, emissions_per_second_x64: value }.data())
+            }
+            ("crew", true) => {
+                let acc = ::whirlpool::accounts::CollectRewardV2 {
+                    whirlpool: fx.pool,
+                    position_authority: signer_key,
+                    position,
+                    position_token_account: ptoken,
+                    reward_owner_account: trader_account(&rmint(idx)),
+                    reward_mint: rmint(idx),
+                    reward_vault: rvault(idx),
+                    reward_token_program: fx.bank.get(&rmint(idx)).owner,
+                    memo_program: anchor_spl::memo::ID,
+                };
+                (acc.to_account_metas(None).iter().map(Meta::from).collect(), ::whirlpool::instruction::CollectRewardV2 { reward_index: idx as u8, remaining_accounts_info: None }.data())
+            }
+            ("crew", false) => {
+                let acc = ::whirlpool::accounts::CollectReward {
+                    whirlpool: fx.pool,
+                    position_authority: signer_key,
+                    position,
+                    position_token_account: ptoken,
+                    reward_owner_account: trader_account(&rmint(idx)),
+                    reward_vault: rvault(idx),
+                    token_program: anchor_spl::token::ID,
+                };
+                (acc.to_account_metas(None).iter().map(Meta::from).collect(), ::whirlpool::instruction::CollectReward { reward_index: idx as u8 }.data())
+            }
+            (_, true) => {
+                let acc = ::whirlpool::accounts::CollectProtocolFeesV2 {
+                    whirlpools_config: wp.whirlpools_config,
+                    whirlpool: fx.pool,
+                    collect_protocol_fees_authority: signer_key,
+                    token_mint_a: fx.mint_a,
+                    token_mint_b: fx.mint_b,
+                    token_vault_a: fx.vault_a,
+                    token_vault_b: fx.vault_b,
+                    token_destination_a: fx.trader_a,
+                    token_destination_b: fx.trader_b,
+                    token_program_a: fx.prog_a,
+                    token_program_b: fx.prog_b,
+                    memo_program: anchor_spl::memo::ID,
+                };
+                (acc.to_account_metas(None).iter().map(Meta::from).collect(), ::whirlpool::instruction::CollectProtocolFeesV2 { remaining_accounts_info: None }.data())
+            }
+            (_, false) => {
+                let acc = ::whirlpool::accounts::CollectProtocolFees {
+                    whirlpools_config: wp.whirlpools_config,
+                    whirlpool: fx.pool,
+                    collect_protocol_fees_authority: signer_key,
+                    token_vault_a: fx.vault_a,
+                    token_vault_b: fx.vault_b,
+                    token_destination_a: fx.trader_a,
+                    token_destination_b: fx.trader_b,
+                    token_program: anchor_spl::token::ID,
+                };
+                (acc.to_account_metas(None).iter().map(Meta::from).collect(), ::whirlpool::instruction::CollectProtocolFees {}.data())
+            }
+        };
+        if auth_mode == 2 {
+            for m in metas.iter_mut() {
+                if m.key == signer_key {
+                    m.signer = false;
+                }
+            }
+        }
+        let (res, out) = fx.bank.execute(&metas, &data);
+        let line = match &res {
+            Err(e) => {
+                let name = err_name(e, &out.logs);
+                if fx.bank.accts != bank0.accts {
+                    viols.push("a failed reward / protocol-fee instruction changed account state".to_string());
+                }
+                if auth_mode != 0 {
+                    tags.push("rew_unauthorized_rejected");
+                } else {
+                    match kind {
+                        "emis" => {
+                            // must be one of the documented refusals
+                            let per_day = ::whirlpool::math::checked_mul_shift_right(86400, value);
+                            let short = per_day.map(|d| (vault_amt[idx] as u128) < d as u128).unwrap_or(true);
+                            if !short && self.now >= wp0.reward_last_updated_timestamp {
+                                viols.push(format!("C11 set_reward_emissions fails with {} although the vault holds a day of emissions and the timestamp is in order", name));
+                            }
+                            tags.push("rew_emis_rejected");
+                        }
+                        "crew" => viols.push(format!("C11/C04 collect_reward v{} by the position's owner fails with {}", ver, name)),
+                        _ => {
+                            let short = wp0.protocol_fee_owed_a > bal(&bank0, &fx.vault_a) || wp0.protocol_fee_owed_b > bal(&bank0, &fx.vault_b);
+                            if short {
+                                tags.push("rew_cproto_vault_cap");
+                            } else {
+                                viols.push(format!("C06/C04 collect_protocol_fees v{} by its authority fails with {}", ver, name));
+                            }
+                        }
+                    }
+                }
+                format!("err {}", name)
+            }
+            Ok(()) => {
+                if auth_mode != 0 {
+                    viols.push(format!("C04 `{}` succeeded although its authority did not sign (mode {})", kind, auth_mode));
+                }
+                match kind {
+                    "emis" => {
+                        let mut reference = crate::hist_oracle::clone_world(&base);
+                        reference.reward_vaults[idx] = vault_amt[idx] as u128;
+                        match reference.set_reward_pub(idx, value, 0) {
+                            Ok(_) => {
+                                let (w1, w2) = (fx.wp(), reference.wp());
+                                let same = w1.reward_last_updated_timestamp == w2.reward_last_updated_timestamp
+                                    && (0..3).all(|i| { w1.reward_infos[i].growth_global_x64 } == { w2.reward_infos[i].growth_global_x64 } && { w1.reward_infos[i].emissions_per_second_x64 } == { w2.reward_infos[i].emissions_per_second_x64 });
+                                if !same {
+                                    viols.push("C11 the pool after set_reward_emissions differs from settle-then-set at manager level".to_string());
+                                }
+                            }
+                            Err(e) => viols.push(format!("C11 set_reward_emissions succeeded but the manager-level rule refuses it ({})", e)),
+                        }
+                        tags.push("rew_emis_ok");
+                        "ok".to_string()
+                    }
+                    "crew" => {
+                        let p = pos0.unwrap();
+                        let owed = p.reward_infos[idx].amount_owed;
+                        let transfer = owed.min(vault_amt[idx]);
+                        let user = transfer - fee_of(ba, ma, transfer);
+                        let d_v = bal(&bank0, &rvault(idx)) - bal(&fx.bank, &rvault(idx));
+                        let d_t = bal(&fx.bank, &trader_account(&rmint(idx))) - bal(&bank0, &trader_account(&rmint(idx)));
+                        if d_v != transfer {
+                            viols.push(format!("C11 collect_reward took {} from the reward vault; min(owed {}, vault {}) = {}", d_v, owed, vault_amt[idx], transfer));
+                        }
+                        if d_t != user {
+                            viols.push(format!("C16 collect_reward: the owner received {}; expected {}", d_t, user));
+                        }
+                        let p_after = Position::try_deserialize(&mut &fx.bank.data(&position)[..]).unwrap();
+                        if p_after.reward_infos[idx].amount_owed != owed - transfer {
+                            viols.push(format!("C11 collect_reward leaves {} owed; expected owed - paid = {}", p_after.reward_infos[idx].amount_owed, owed - transfer));
+                        }
+                        let mut want = p.clone();
+                        want.update_reward_owed(idx, owed - transfer);
+                        let mut wd = vec![];
+                        want.try_serialize(&mut wd).unwrap();
+                        if fx.bank.data(&position)[72..] != wd[72..] {
+                            viols.push("C11 collect_reward changed something else than the owed amount of that reward".to_string());
+                        }
+                        tags.push(if transfer < owed { "rew_crew_partial" } else if ba > 0 { "rew_crew_ok_with_transfer_fee" } else { "rew_crew_ok" });
+                        format!("ok {} {} {}", transfer, user, owed - transfer)
+                    }
+                    _ => {
+                        let (oa, ob) = (wp0.protocol_fee_owed_a, wp0.protocol_fee_owed_b);
+                        let (ua, ub) = (oa - fee_of(ba, ma, oa), ob - fee_of(bb, mb, ob));
+                        let (d_va, d_vb) = (bal(&bank0, &fx.vault_a) - bal(&fx.bank, &fx.vault_a), bal(&bank0, &fx.vault_b) - bal(&fx.bank, &fx.vault_b));
+                        let (d_ta, d_tb) = (bal(&fx.bank, &fx.trader_a) - bal(&bank0, &fx.trader_a), bal(&fx.bank, &fx.trader_b) - bal(&bank0, &fx.trader_b));
+                        if (d_va, d_vb) != (oa, ob) {
+                            viols.push(format!("C06 collect_protocol_fees took ({}, {}) from the vaults but ({}, {}) were owed", d_va, d_vb, oa, ob));
+                        }
+                        if (d_ta, d_tb) != (ua, ub) {
+                            viols.push(format!("C16/C06 collect_protocol_fees: the destination received ({}, {}); expected ({}, {})", d_ta, d_tb, ua, ub));
+                        }
+                        let w1 = fx.wp();
+                        if w1.protocol_fee_owed_a != 0 || w1.protocol_fee_owed_b != 0 {
+                            viols.push("C06 collect_protocol_fees did not reset the protocol fees owed".to_string());
+                        }
+                        tags.push("rew_cproto_ok");
+                        format!("ok {} {} {} {}", ua, ub, oa, ob)
+                    }
+                }
+            }
+        };
+        XHopOut { line, viols, tags }
+    }
+}
